@@ -25,7 +25,7 @@ ID = "C17"
 THEOREMS = ["C17_service_order_partial", "C17_answered_at_most_once_partial", "C17_answer_is_own_partial",
             "C17_no_loss_partial", "C17_quiescent_all_answered_partial", "C17_fifo_progress_partial",
             "C17_fifo_progress_tight_partial", "C17_in_batch_next_completion_partial", "C17_in_queue_second_completion_partial",
-            "C17_batch_order_fifo_partial", "C17_bytes_roundtrip"]
+            "C17_batch_order_fifo_partial", "C17_batch_size_bound_partial", "C17_bytes_roundtrip"]
 MODEL_TARGETS = ["model/Server.vo", "model/Harness.vo"]
 TRUSTED_BASE = [
     "PARTIAL: the theorems cover every event sequence of the MODEL (model/Server.v); real thread scheduling, the gRPC "
@@ -50,7 +50,7 @@ CHUNK = 1200        # words per Coq case when a real policy vector (4572 words) 
 HEADER = ("From Coq Require Import ZArith List Bool.\nFrom TV Require Import model.Server.\nImport ListNotations.\n"
           "Definition beq (x y : Z * list Z) := (fst x =? fst y)%Z && zlist_eqb (snd x) (snd y).\n"
           "Definition aeq (x y : Z * (list Z * Z)) := (fst x =? fst y)%Z && zlist_eqb (fst (snd x)) (fst (snd y)) && (snd (snd x) =? snd (snd y))%Z.\n"
-          "Definition R := mkReq.\nDefinition Ar i p t := Arrive (mkReq i p) t.\nDefinition Ti := Timer.\nDefinition Md := ModelDone.\n")
+          "Definition R := mkReq.\nDefinition Ar i p t := Arrive (mkReq i p) t.\nDefinition Ti := Timer.\nDefinition Md := ModelDone.\nDefinition Wk := Wake.\n")
 CTYPE = "list event * list Z * list (Z * list Z) * list (Z * (list Z * Z))"
 CHECK = ("fun c => let '(evs, lats, bs, ans) := c in let st := run _ ref_frow evs in "
          "timely _ ref_frow lats evs && list_eqb_by beq (obs_batches st) bs && list_eqb_by aeq (obs_answers st) ans")
@@ -204,6 +204,22 @@ def make_transformer(seed=0):
     return m
 
 
+def _log_worker_runs(server, loop, log):
+    """Wake events: a successful get_nowait that does not continue a drain (W) or a completion (D) logged at
+    this instant means that the worker, woken by a put, got to run.  Observation only."""
+    q = server.queue
+    orig = q.get_nowait
+
+    def get_nowait():
+        item = orig()
+        now = loop.now_us()
+        if not (log and log[-1][0] in ("W", "D") and log[-1][-1] == now):
+            log.append(("W", now))
+        return item
+
+    q.get_nowait = get_nowait
+
+
 # --------------------------------------------------------------------------
 # running one schedule on the real server
 # --------------------------------------------------------------------------
@@ -235,6 +251,7 @@ def run_schedule(arrivals, base_lats, model_kind="hash", transformer=None):
         model = _make_recording(torch, transformer, on_batch, outs)
     loop.set_default_executor(VExecutor(loop, base_lats, log, lats_used))
     server = srv.Server(model=model)
+    _log_worker_runs(server, loop, log)
     answers, returned = [], {}
     state = {"left": len(arrivals), "worker_error": None}
     tasks = []
@@ -254,8 +271,18 @@ def run_schedule(arrivals, base_lats, model_kind="hash", transformer=None):
     async def main():
         worker = asyncio.ensure_future(server.worker_loop())
         tasks.append(worker)
+        # requests with the same arrival time are created by one callback, in id order: they enter Evaluate in
+        # the same loop iteration, before a worker woken by the first of them gets to run
+        groups = {}
         for (i, t, pos) in arrivals:
-            loop.call_at(t * 1e-6, lambda i=i, pos=pos: tasks.append(asyncio.ensure_future(client(i, list(pos)))))
+            groups.setdefault(t, []).append((i, pos))
+
+        def start(group):
+            for (i, pos) in group:
+                tasks.append(asyncio.ensure_future(client(i, list(pos))))
+
+        for t in sorted(groups):
+            loop.call_at(t * 1e-6, start, groups[t])
         await all_done.wait()
         # let the loop drain what is scheduled at this instant, then stop
         await asyncio.sleep(0)
@@ -319,7 +346,8 @@ def min_gap(obs):
     g = None
     for a, b in zip(ev, ev[1:]):
         d = b[-1] - a[-1]
-        if b[0] == "D" and d == 0:
+        # same instant by construction: a group of arrivals, the worker run they cause, a latency-0 completion
+        if d == 0 and (b[0] in ("W", "D") or (a[0] == "A" and b[0] == "A")):
             continue
         g = d if g is None else min(g, d)
     return g
@@ -395,7 +423,7 @@ def xf_oracle(sched, obs, tf):
 # --------------------------------------------------------------------------
 # schedule generator
 # --------------------------------------------------------------------------
-KINDS = ["burst", "trickle", "threshold8", "mixed", "backpressure", "single"]
+KINDS = ["burst", "trickle", "threshold8", "mixed", "backpressure", "window", "single"]
 
 
 def _positions(rng, n):
@@ -420,18 +448,28 @@ def _trickle_gap(rng):
 
 
 def gen_schedule(rng, kind, max_req):
-    t, times = rng.randrange(GRID, 2000, GRID), []
+    """-> {"kind", "arrivals": [[id, t_us, tokens]], "lats"}; arrivals with equal times form a group that enters
+    Evaluate in one loop iteration, i.e. before the woken worker runs (ids give the order inside a group)"""
+    t, groups = rng.randrange(GRID, 2000, GRID), []      # groups: [time, size]
 
-    def burst(n):
+    def total():
+        return sum(n for _, n in groups)
+
+    def burst(n, simultaneous=None):
+        """n arrivals 100 us apart; with `simultaneous`, cut into groups that arrive at one instant each"""
         nonlocal t
-        for _ in range(n):
-            times.append(t)
+        if simultaneous is None:
+            simultaneous = rng.random() < 0.3
+        while n > 0:
+            g = rng.randint(1, n) if simultaneous and rng.random() < 0.7 else 1
+            groups.append([t, g])
+            n -= g
             t += GRID
 
     def trickle(n):
         nonlocal t
         for _ in range(n):
-            times.append(t)
+            groups.append([t, 1])
             t += _trickle_gap(rng)
 
     def pause():
@@ -452,8 +490,42 @@ def gen_schedule(rng, kind, max_req):
         burst(rng.randint(90, max(90, max_req)))
         pause()
         trickle(rng.randint(0, 6))
+    elif kind == "window":
+        # k = 1..7 requests are picked up one by one (gaps below the 1 ms timeout), then a burst arrives inside
+        # the gather window in ONE loop iteration: 80 are queued, the rest block in put, and the worker drains the
+        # whole queue without suspending: a model call of k + 80 requests.  Variants: a burst that just fails to
+        # fill the queue, a burst cut in two instants, later probes (trickle / second window) or none.
+        for rep in range(rng.choice([1, 1, 1, 2])):
+            k = rng.randint(1, 7)
+            for _ in range(k):
+                groups.append([t, 1])
+                t += rng.choice([100, 200, 300, 500, 700, 900])
+            t -= rng.choice([0, 0, 100])  # (the last gap is the distance to the burst)
+            if groups and t <= groups[-1][0]:
+                t = groups[-1][0] + GRID
+            r = rng.random()
+            n = (rng.randint(81 - k, max(81 - k, max_req)) if r < 0.7 else rng.randint(max(2, 74 - k), 80 - k) if r < 0.85
+                 else rng.randint(2, 40))
+            if rng.random() < 0.2 and n > 3:
+                n1 = rng.randint(1, n - 1)
+                groups.append([t, n1])
+                t += GRID
+                groups.append([t, n - n1])
+            else:
+                groups.append([t, n])
+            t += GRID
+            probe = rng.random()
+            if probe < 0.35:
+                pass
+            elif probe < 0.7:
+                pause()
+                trickle(rng.randint(1, 5))
+            else:
+                t += rng.choice([100, 300, 2500])
+                burst(rng.randint(1, 30))
+            pause()
     else:
-        while len(times) < max_req and (not times or rng.random() < 0.75):
+        while total() < max_req and (not groups or rng.random() < 0.75):
             c = rng.random()
             if c < 0.4:
                 burst(rng.randint(1, 24))
@@ -461,9 +533,11 @@ def gen_schedule(rng, kind, max_req):
                 trickle(rng.randint(1, 10))
             else:
                 pause()
-        del times[max_req:]
-    if times and times[-1] == t - 1000:
-        pass
+        while total() > max_req:
+            if groups[-1][1] > total() - max_req:
+                groups[-1][1] -= total() - max_req
+            else:
+                groups.pop()
     # latencies per model call, microseconds (multiples of the grid; 0 = completes at once)
     nl = rng.randint(1, 12)
     if kind == "backpressure":
@@ -473,31 +547,32 @@ def gen_schedule(rng, kind, max_req):
         pool = ([0, 100, 200, 400] if style < 0.3 else [0, 300, 900, 1100, 2500, 6000] if style < 0.7
                 else [0, 5000, 12000, 30000, 50000])
         lats = [rng.choice(pool) if rng.random() < 0.8 else rng.randrange(0, 50001, GRID) for _ in range(nl)]
-    # the 1 ms rule between consecutive arrivals
-    fixed = []
-    for x in times:
-        if fixed and x - fixed[-1] == 1000:
+    # group times strictly increase and no group comes exactly 1 ms after the previous one (that would tie with
+    # the gather timeout started by the previous arrival)
+    times = []
+    for x, _ in groups:
+        while times and (x <= times[-1] or x - times[-1] == 1000):
             x += GRID
-        while fixed and x <= fixed[-1]:
-            x += GRID
-        if fixed and x - fixed[-1] == 1000:
-            x += GRID
-        fixed.append(x)
-    pos = _positions(rng, len(fixed))
-    return {"kind": kind, "arrivals": [[i, fixed[i], pos[i]] for i in range(len(fixed))], "lats": lats}
+        times.append(x)
+    flat = [tm for tm, (_, n) in zip(times, groups) for _ in range(n)]
+    pos = _positions(rng, len(flat))
+    return {"kind": kind, "arrivals": [[i, flat[i], pos[i]] for i in range(len(flat))], "lats": lats}
 
 
 def schedule_stream(run, n, max_req, with_backpressure, max_burst=200):
     rng = run.rng
-    fixed_first = ["single", "threshold8", "burst", "trickle", "mixed"] + (["backpressure"] if with_backpressure else [])
+    fixed_first = (["single", "threshold8", "burst", "trickle", "mixed"] +
+                   (["backpressure", "window", "window"] if with_backpressure else ["window"]))
     for k in range(n):
         if k < len(fixed_first):
             kind = fixed_first[k]
         else:
             r = rng.random()
-            kind = ("mixed" if r < 0.35 else "trickle" if r < 0.55 else "burst" if r < 0.72 else "threshold8" if r < 0.87
-                    else "backpressure" if (r < 0.95 and with_backpressure) else "single" if r < 0.97 else "mixed")
-        yield gen_schedule(rng, kind, max_req if kind != "backpressure" else max_burst)
+            kind = ("mixed" if r < 0.32 else "trickle" if r < 0.50 else "burst" if r < 0.65 else "threshold8" if r < 0.78
+                    else "window" if r < 0.88 else "backpressure" if (r < 0.95 and with_backpressure)
+                    else "single" if r < 0.97 else "mixed")
+        big = kind == "backpressure" or (kind == "window" and with_backpressure)
+        yield gen_schedule(rng, kind, max_burst if big else max_req)
 
 
 # --------------------------------------------------------------------------
@@ -511,6 +586,8 @@ def c_events(sched, obs):
             out.append(f"Ar {cz(e[1])} {czlist(pos_of[e[1]])} {cz(e[2])}")
         elif e[0] == "T":
             out.append(f"Ti {cz(e[1])}")
+        elif e[0] == "W":
+            out.append(f"Wk {cz(e[1])}")
         else:
             out.append(f"Md {cz(e[1])}")
     return clist(out)
@@ -537,6 +614,13 @@ def _slim(obs):
     return {"events": obs["events"], "latencies_us": obs["lats"], "batches": obs["batches"],
             "answers": [{"id": a["id"], "t": a["t"], "words": a["words"], "value_bits": a["value_bits"]} for a in obs["answers"]],
             "unanswered": obs["unanswered"], "end": obs["end"], "worker_error": obs["worker_error"]}
+
+
+def _group_sizes(sched):
+    sizes = {}
+    for (_, t, _) in sched["arrivals"]:
+        sizes[t] = sizes.get(t, 0) + 1
+    return list(sizes.values())
 
 
 def _nontrivial(sched, obs):
@@ -754,7 +838,10 @@ def correspondence(run):
     dist.update({"requests": n_req, "model_calls": n_batches, "schedules_with_blocked_putters": sum(1 for x in nb if x),
                  "schedules_with_more_than_80_blocked": sum(1 for x in nb if x > 80), "arrivals_that_blocked": sum(nb),
                  "min_event_gap_us": min(gaps) if gaps else None,
-                 "max_batch": max((len(r) for _, o, _ in scheds for _, r in o["batches"]), default=0)})
+                 "max_batch": max((len(r) for _, o, _ in scheds for _, r in o["batches"]), default=0),
+                 "model_calls_larger_than_queue_depth": sum(1 for _, o, _ in scheds for _, r in o["batches"] if len(r) > 80),
+                 "simultaneous_arrival_groups": sum(1 for s_, _, _ in scheds for n in _group_sizes(s_) if n > 1)})
+    run.extra["max_batch"] = dist["max_batch"]
     run.count(len(scheds), nontriv,
               "schedules run on the real Server.worker_loop/Evaluate (virtual time) and replayed by the Coq model: event list, "
               "latencies, batch compositions with start times, responses in completion order all compared; non-trivial = "
